@@ -24,6 +24,8 @@ pub struct RawEngineState { pub open_interest_notional: Uint128, pub prepaid_bad
 #[derive(serde::Deserialize)]
 pub struct RawVammMap { pub last_restriction_block: u64, pub cumulative_premium_fractions: Vec<Integer> }
 #[derive(serde::Deserialize)]
+pub struct RawSnapshot { pub quote_asset_reserve: Uint128, pub base_asset_reserve: Uint128, pub timestamp: Timestamp, pub block_height: u64 }
+#[derive(serde::Deserialize)]
 pub struct RawPriceData { pub round_id: Uint128, pub price: Uint128, pub timestamp: Timestamp }
 
 pub const ID_OWNER: u32 = 1;
@@ -673,6 +675,19 @@ impl World {
                 ow.map(|o| self.id_of(&o.owner).to_string()).unwrap_or("none".into())).unwrap();
             let snapn: Option<u64> = self.raw_singleton(va, b"reserve_snapshot_counter");
             write!(s, " v{}.snaps={}", vid, snapn.unwrap_or(0)).unwrap();
+            for (j, nm) in [(0u64, "s0"), (1u64, "s1")] {
+                let n = snapn.unwrap_or(0);
+                let snap: Option<RawSnapshot> = if n > j {
+                    let mut key = vec![0u8, 16u8];
+                    key.extend_from_slice(b"reserve_snapshot");
+                    key.extend_from_slice(&(n - j).to_be_bytes());
+                    self.app.wrap().query_wasm_raw(va, key).ok().flatten().and_then(|v| cosmwasm_std::from_slice(&v).ok())
+                } else { None };
+                match snap {
+                    Some(sn) => write!(s, " v{0}.{1}={2}/{3}/{4}/{5}", vid, nm, sn.quote_asset_reserve, sn.base_asset_reserve, sn.timestamp.seconds(), sn.block_height).unwrap(),
+                    None => write!(s, " v{}.{}=none", vid, nm).unwrap(),
+                }
+            }
             let fmt_u = |x: Option<Uint128>| x.map(|v| v.to_string()).unwrap_or("err".into());
             write!(s, " v{}.spot={}", vid, fmt_u(self.q(va, &mv::QueryMsg::SpotPrice {}))).unwrap();
             write!(s, " v{}.twap={}", vid, fmt_u(self.q(va, &mv::QueryMsg::TwapPrice { interval: c.spot_price_twap_interval }))).unwrap();
@@ -750,6 +765,25 @@ impl World {
         }
         lines.push(s);
         lines
+    }
+
+    fn snapshot(&self, va: &Addr, idx: u64) -> Option<RawSnapshot> {
+        let mut key = vec![0u8, 16u8];
+        key.extend_from_slice(b"reserve_snapshot");
+        key.extend_from_slice(&idx.to_be_bytes());
+        self.app.wrap().query_wasm_raw(va, key).ok().flatten().and_then(|v| cosmwasm_std::from_slice(&v).ok())
+    }
+    /// the integer price band [lower, upper] around the price at the end of the previous block
+    pub fn band(&self, v: u32) -> Option<(u128, u128)> {
+        let va = self.addr(v);
+        let c: mv::ConfigResponse = self.q(&va, &mv::QueryMsg::Config {})?;
+        let n: u64 = self.raw_singleton(&va, b"reserve_snapshot_counter")?;
+        let mut s = self.snapshot(&va, n)?;
+        if s.block_height == self.app.block_info().height && n > 1 { s = self.snapshot(&va, n - 1)?; }
+        let d = c.decimals.u128();
+        let l = c.fluctuation_limit_ratio.u128();
+        let r = s.quote_asset_reserve.u128().checked_mul(d)? / s.base_asset_reserve.u128();
+        Some((r.checked_mul(d - l)? / d, r.checked_mul(d + l)? / d))
     }
 
     /// full raw storage of every contract plus every observed balance: used by the C08 monitor
